@@ -149,7 +149,8 @@ def conditions(tier):
                 fixed.update(with_data=True, with_notify=True)
             else:
                 pre.append('0 <= tkind < %d' % NT)
-                sym += [('with_data', 'bool'), ('with_notify', 'bool')]
+                sym += [('with_notify', 'bool')]
+                fixed.update(with_data=True)
             conds.append(ch.Cond('h_c05', 'value_callbacks', sym, pre=pre, fixed=fixed, timeout=T,
                                  name='callbacks[%s,order=%d]' % (pipe.CALLABLE_KINDS[ck], order),
                                  bounds='scope (5) x closure (7: none, data, notify, n, missing, itself, self) x '
@@ -183,7 +184,7 @@ def conditions(tier):
             fixed.update(sret=10, sparam=0)
         else:
             sym += [('sret', 'int'), ('sparam', 'int')]
-            pre += ['sret in (0, 2, 4, 6, 10)', '0 <= sparam < %d' % NG]
+            pre += ['sret in (0, 2, 4, 6, 10)', 'sparam in (0, 3, 6, 10)']
         conds.append(ch.Cond('h_c05', 'class_members', sym, pre=pre, fixed=fixed, timeout=T,
                              name='class_members[accessors=%s,annotation=%d]' % (ws, sa),
                              bounds='property GType in {%s}, flag words 0..15 (readable, writable, construct, '
